@@ -34,15 +34,26 @@ fn ctime(c: &ClockHandle, w: u64) -> ClockTime {
 	ClockTime { clock: c.id(), ticks: w / 4, fraction: (w % 4) as f64 / 4.0 }
 }
 
+/// records how long each slice handed to the main track's effects is: the internal chunks a callback was cut into
+struct ChunkLog(std::sync::Arc<std::sync::Mutex<Vec<usize>>>);
+impl kira::effect::Effect for ChunkLog {
+	fn process(&mut self, input: &mut [kira::Frame], _dt: f64, _info: &kira::info::Info) {
+		let (log, n) = (&self.0, input.len());
+		unarmed(|| log.lock().unwrap().push(n));
+	}
+}
+
 fn run_scenario(sc: &Value, t: &mut Tracer) {
 	let b = sc["b"].as_u64().unwrap() as usize;
 	let speed0 = sc["speed0"].as_u64().unwrap();
 	t.reset(json!({"b": b, "speed0": speed0, "src": sc["src"]}));
+	let chunk_log: std::sync::Arc<std::sync::Mutex<Vec<usize>>> = Default::default();
+	let cl2 = chunk_log.clone();
 	let (tx, rx) = std::sync::mpsc::channel::<Renderer>();
 	let gw: Worker<World> = Worker::spawn("gameplay", move || {
 		let mut manager = AudioManager::<VBackend>::new(AudioManagerSettings {
 			capacities: Capacities::default(),
-			main_track_builder: MainTrackBuilder::new(),
+			main_track_builder: MainTrackBuilder::new().with_built_effect(Box::new(ChunkLog(cl2))),
 			internal_buffer_size: b,
 			backend_settings: VSettings { sample_rate: RATE },
 		})
@@ -255,7 +266,9 @@ fn run_scenario(sc: &Value, t: &mut Tracer) {
 							_ => (-1, json!(-1)),
 						};
 						let panicked = res["m"]["panicked"].as_bool().unwrap_or(false);
-						t.ev(json!({"a": "cb", "n": n_cur, "t": tt, "ticking": tk, "fired": fired,
+						// (chs: the internal chunks this callback was rendered in, as the main track saw them)
+						let chs: Vec<usize> = std::mem::take(&mut *chunk_log.lock().unwrap());
+						t.ev(json!({"a": "cb", "n": n_cur, "t": tt, "ticking": tk, "fired": fired, "chs": chs,
 							"panicked": panicked, "m": res["m"]}));
 						!panicked
 					}
